@@ -141,6 +141,15 @@ func TestC10(t *testing.T) {
 				}
 			}
 			c.Sc.Backend.MsgRaw = make([]bool, len(c.Sc.Backend.Msgs))
+			switch rapid.IntRange(0, 3).Draw(t, "resp_write_mode") {
+			case 0:
+				c.Sc.Backend.WriteChunk = rapid.SampledFrom([]int{1, 7, 100, 500, 1000}).Draw(t, "resp_chunk")
+				if c.Payload > 1<<20 && c.Sc.Backend.WriteChunk < 100 {
+					c.Sc.Backend.WriteChunk = 1000
+				}
+			case 1:
+				c.Sc.Backend.WriteSplits = []int{5}
+			}
 		}
 		judge(t, "C10", c, checkC10(c))
 	})
@@ -269,6 +278,12 @@ func checkC10(c *sizeCase) *CheckResult {
 					res.violate("oversized_converted", sig+":a3", "limit %d: response message was re-encoded to %d bytes (%s <- %s) and delivered", L, n, ct, bt)
 				}
 			}
+		}
+	}
+	// A5: clients whose outcome precedes the body (Connect unary, REST) get their response buffered whole
+	if cv.OK && view != nil && !formEnveloped(sc.Client.Form) {
+		if n := maxInts(cv.WireSizes); n > L {
+			res.violate("oversized_buffered", sig+":a5", "limit %d: a response of %d bytes was buffered whole for the %s client and delivered (%s <- %s)", L, n, sc.Client.Form, ct, bt)
 		}
 	}
 	// A2: everything fits => no size rejection
